@@ -133,7 +133,7 @@ SCHEM = "circuit/diagrams/schemdraw.py"
 
 # ---------------------------------------------------------------- C15
 V("c15-private-regress", "C15", REG, "        key: str\n        for key in list(_PRIVATE_ELEMENTS.keys()):\n            if key not in _DEFAULT_ELEMENTS:\n                del _PRIVATE_ELEMENTS[key]\n", "", "fire", "does-not-restore:_PRIVATE_ELEMENTS")
-V("c15-remove-default-guard", "C15", REG, "    for element in elements:\n        if element in default_elements:\n            raise ValueError(\n                f\"Expected a user-defined element instead of one of the default elements {element=}\"\n            )\n\n", "", "fire", "remove_elements:default-guard")
+V("c15-remove-default-guard", "C15", REG, "    for element in elements:\n        if element in default_elements:\n            raise ValueError(\n                f\"Expected a user-defined element instead of one of the default elements {element=}\"\n            )\n\n", "", "fire", "remove_elements:semantics")
 V("c15-duplicate-guard", "C15", REG, "    if not (symbol not in _ELEMENTS or _ELEMENTS[symbol] == Class):\n        raise KeyError(\n            f\"An element with the symbol '{symbol}' ({_ELEMENTS[symbol]}) has already been registered before this attempt to register '{Class}'!\"\n        )\n\n", "", "fire", "duplicate-guard")
 V("c15-validation-skipped", "C15", REG, "    if kwargs.get(\"validate_impedances\", _VALIDATE_IMPEDANCES):\n        _validate_impedances(Class)\n", "    if kwargs.get(\"validate_impedances\", False):\n        _validate_impedances(Class)\n", "fire", "_initialize_element:validation")
 V("c15-imag-not-compared", "C15", REG, "    if not allclose(Z_func.imag, Z_sympy.imag):\n        raise ValueError(\n            f\"The imaginary parts of the results of the _impedance method and SymPy expression do not match for '{Class}'!\"\n        )\n", "", "fire", "_validate_impedances:comparison")
